@@ -18,7 +18,8 @@ CHECKS = {
               "declared [lo,hi], that at most 2^bits codes exist, that min()/max() enclose and range() enumerates exactly the reachable "
               "codes. The model (Quant/Fixed.v) is compared exactly, float32 bit pattern by bit pattern, with the eager TensorFlow "
               "implementation at every rounding breakpoint +-1ulp, edges, zeros/denormals and random tensors."
-              " The float32 bridge is proved (Quant/FLExact.v): the rounding function fl of the float model is the identity on every k*2^e with |k| < 2^24 in the normal range, hence every representable code times its step IS a float32 value (C01_code_times_step_is_a_float32_value, C01_qbits_output_is_a_float32_value)."),
+              " The float32 bridge is proved (Quant/FLExact.v): the rounding function fl of the float model is the identity on every k*2^e with |k| < 2^24 in the normal range, hence every representable code times its step IS a float32 value (C01_code_times_step_is_a_float32_value, C01_qbits_output_is_a_float32_value)."
+              " Translator lingen.py -> coq/gen/LinGen.v + Link/LinLink.v: get_clip_bounds of quantized_linear IS (smallest code, largest code) and max()/min() are those codes times the quantization scale the codes are multiplied by, for every multi-bit configuration (regenerated every run). Quantizers are also built by assigning the modifiable attribute symmetric after construction."),
         design_ref="DESIGN.md section 5 C01, section 10, section 10.10",
         note=(TB_COMMON + "TensorFlow float32 kernels are modelled as exact rational arithmetic inside the hypothesis |x| < 2^24 output-grid "
               "steps (exactness argument in DESIGN.md 2.2); hard/smooth sigmoid use the explicit 24-bit rounding function fl of Base/FL.v; "
@@ -30,7 +31,8 @@ CHECKS = {
         text=("Coq theorems (Properties/C02.v): round-half-even is within half a unit and no integer is closer; inside the range the code is "
               "within half a step, outside it is the end code; codes are monotone in the rational input; quantized_bits (alpha in {None,1}), "
               "plain quantized_relu are idempotent; quantized_linear's clip-then-round equals round-then-clip. Same exact correspondence as C01 "
-              "plus direct nearest / monotone / q(q(x)) evaluation on the implementation."),
+              "plus direct nearest / monotone / q(q(x)) evaluation on the implementation."
+              " Translator lingen.py -> coq/gen/LinGen.v + Link/LinLink.v: _scale_clip_and_round of quantized_linear is rround(rclip lo hi (x/qs)) = ql_code and the quantized value of __call__ is ql_val for every multi-bit configuration, positive scale and rational input, so the LinearThm theorems (idempotent, monotone, nearest) are about the regenerated code."),
         design_ref="DESIGN.md section 5 C02, section 10",
         note=(TB_COMMON + "Same modelling assumptions as C01. The non-idempotence of legacy quantized_bits with a constant alpha != 1 is "
               "a recorded known finding (refuted lemma with witness)."),
@@ -99,7 +101,8 @@ CHECKS = {
               "Correspondence: tf.random.uniform is replaced by injected draws (0, frac-ulp, frac, frac+ulp, 1/2, 1-2^-24, random) and the "
               "implementation is compared exactly with a float32-faithful threshold model; phase 0 is compared bitwise with the deterministic "
               "configuration, stochastic_binary/ternary with binary/ternary. Two genuine defects were repaired (fix: commits)."
-              " stochastic_round is REGENERATED on every run (tools/translate/stochgen.py -> coq/gen/StochGen.v) and Link/StochLink.v proves that at precision 1 it is the integer model sround for every rational input and every draw, so the theorems are about the code (C08_code_stochastic_round_is_the_model, C08_code_result_is_floor_or_ceil)."),
+              " stochastic_round is REGENERATED on every run (tools/translate/stochgen.py -> coq/gen/StochGen.v) and Link/StochLink.v proves that at precision 1 it is the integer model sround for every rational input and every draw, so the theorems are about the code (C08_code_stochastic_round_is_the_model, C08_code_result_is_floor_or_ceil)."
+              " Stochastic quantized_po2 with quadratic_approximation is judged by the Coq checker chk_po2_stoch_quad (exponent of sqrt(x), clipped, doubled)."),
         design_ref="DESIGN.md section 5 C08, section 10, section 10.10",
         note=(TB_COMMON + "K.learning_phase/K.set_learning_phase are harness stubs (absent under the pinned Keras 3: known finding). "
               "The only probabilistic assumption is that P(u <= t) = t for the uniform law; a 4096-draw statistical run is included as a test, not as proof."),
@@ -192,8 +195,9 @@ CHECKS = {
               "inside an allow-list without eval/exec/compile/__import__/getattr. For str(q) the __str__ emission tables are regenerated "
               "from source: positional flags are in constructor order for every class and prefix-closed for every valuation of the guards "
               "except four recorded classes. Correspondence: generated argument strings through the real GetParams/safe_eval vs the Coq "
-              "parser vs Python's own eval; get_quantizer(str(q)) over the C09 option lattice. Three genuine defects repaired (fix: commits)."),
-        design_ref="DESIGN.md section 5 C10, section 10",
+              "parser vs Python's own eval; get_quantizer(str(q)) over the C09 option lattice. Three genuine defects repaired (fix: commits)."
+              " Option values needing many digits (float32(v)/3) must round-trip through str() bitwise."),
+        design_ref="DESIGN.md section 5 C10, section 10, section 10.10",
         note=(TB_COMMON + "pyparsing's tokenisation is modelled (split at commas, key [^=,)\\s]+, value [^,)]*) and compared on every "
               "string; Python float() is an oracle (tokens compared in Coq, values in the harness). The literal grammar has no blank before a "
               "comma and number lists only as keyword values in numpy print form. Translator tools/translate/qmeta.py trusted, fail-closed."),
